@@ -1,7 +1,8 @@
 #!/bin/bash
-# ev2.sh <ID> <k> <demo dest relative to repo root> <go test args...>: confirm demo + evaluate check for a round-2 seed
+# ev2.sh <ID> <k> <demo dest relative to repo root> <go test args...>: confirm demo + evaluate check for a seed of round $SEEDROUND (default 2)
 ID=$1; K=$2; DEST=$3; shift 3
-D=/tmp/seedwork2-$ID/$K
-echo "=== $ID-r2-$K"
+R=${SEEDROUND:-2}
+D=/tmp/seedwork$R-$ID/$K
+echo "=== $ID-r$R-$K"
 /verif/seedconfirm.sh $D/patch.diff $D/demo_test.go "$DEST" "$@" 2>&1 | tail -1
 /verif/seedeval.sh $ID $D/patch.diff 2>&1 | grep -v "^  \|^$\|^KNOWN" | cut -c1-240 | tail -3
